@@ -116,10 +116,28 @@ CHECKS = {
         technique="Rocq commutation proofs over a fold/permutation schema + refutation by vm_compute; AST and runtime site enumeration; subprocess differential sweep over hash seeds, conversion histories, import orders and forced set iteration orders"),
     "C15": dict(
         category="proof",
-        text="Proof about the modelled save/load logic (partial: the third-party writer is assumed): FileModes.v models jax2onnx's _save_model_proto (standard: spill >= threshold to <name>.data, nothing truncated/removed before writing, sidecar removed only if unreferenced AND empty; web: self-contained, sidecar removed) on top of an explicit assumed onnx writer variant (append/truncate, CWD-relative existence check on/off) and onnx.load's (location, offset, length) resolution. Coq proves by induction over unbounded histories of exports to one path (any mix of modes/sizes/CWDs, raising exports included, arbitrary prior directory) that the file loads bit-exactly to the last non-raising export, that web output is a single self-contained file, and that every external reference lies inside the region written by the last export; the full-strength 'load = last export' is REFUTED (FileExistsError when re-exporting from inside the output directory) and proved under the exact hypothesis 'the last export does not raise'.",
+        text="Proof about the modelled save/load logic (partial: the third-party writer is assumed): FileModes.v models `_save_model_proto` (standard: remove old sidecar, spill >= threshold to <name>.data, drop an unreferenced empty sidecar; web: self-contained, sidecar removed) on top of an explicit assumed onnx writer variant (append/truncate, CWD-relative existence check on/off) and onnx.load's (location, offset, length) resolution; the code/writer variant is selected by the tie. Coq proves for unbounded histories of exports to one path (any modes/sizes/CWDs, raising exports included, any prior directory): for the current code (no CWD check, old sidecar removed first) the file ALWAYS loads bit-exactly to the last export (C15_load_after_save_no_cwd_check); exports are history independent (main file and sidecar equal those of an export into an empty directory: no stale byte survives, sidecar size exact); web output is one self-contained file; for the earlier code variants the statement is refuted (witness histories) and proved under the exact hypothesis, together with exactly when an export raises and what it leaves.",
         design_ref="DESIGN.md section 4 C15",
-        note="Trusted: Coq kernel (no axioms); ASSUMED onnx.save_model/onnx.load/protobuf round-trip behaviour, validated every run by Tie D (real to_onnx file exports over fixed+random histories with parameters 0.5 MiB..3 MiB on both sides of the effective 1 MiB-33 B threshold; file set, sidecar size, offsets/lengths, reload result compared inside Coq under 4 writer variants; installed onnx = append + CWD check). Real-code property check per step: proto == ir->proto == file reloaded, web file loads alone. Known finding: FileExistsError on standard re-export when CWD holds <basename>.data.",
+        note="Trusted: Coq kernel (no axioms); ASSUMED onnx.save_model/onnx.load/protobuf round trip, validated every run by Tie D (real to_onnx file exports over fixed+random histories, parameters 0.5-3 MiB on both sides of the effective 1 MiB-33 B threshold, three kinds of CWD; file set, sidecar size, offsets/lengths, reload result compared inside Coq under 6 code/writer variants; the variant of the current code is a named obligation). Real-code check per step: proto == ir->proto == file reloaded (protobuf bytes modulo data_location presence bit, initializer bytes, onnxruntime outputs), web file loads alone. Fixed in /repo: 1d7bd45 (FileExistsError / sidecar growth on re-export from the output directory), e203da0 (FileExistsError when the CWD holds an unrelated <basename>.data, which since 1d7bd45 also destroyed the previous export's sidecar).",
         technique="Rocq proof over a hand-written file-system model generic in the byte-string implementation + correspondence by vm_compute on real export histories + differential check of return modes with onnx/onnxruntime"),
+    "C10": dict(
+        category="proof",
+        text="Proof (partial in the transformations quantifier): (i) Batch.v models the shared broadcasting batch rule (`broadcast_batcher_compat` + `_handle_scalar_broadcasting`) over tensors-as-index-functions and proves it equal to the DEFINITION of vmap (stack of per-example results) for every elementwise numpy-broadcasting binary primitive, all shapes, ranks and batch dims; for the pre-repair helper the statement is refuted by a witness and proved on the exact fragment; the elementwise hypothesis is shown necessary (dot/matmul) and every plugin using the shared batcher is classified. (ii) Inline.v (over the dispatcher model Lowering.v): lowering the alpha-renamed (freshened) body of jit / nested jit / custom_jvp / custom_vjp / remat equals the renaming of lowering the original body - same graph, same outer bindings, same errors - and two inlinings with disjoint fresh maps do not clash. (iii) Linear.v: every name in `_LINEAR_TRANSPOSE_FALLBACK_ALLOWLIST` (translated from the source each run) denotes a function linear in its differentiable operands; forwarding pairs share a denotation; allow/block lists are disjoint. Not proved, explored: T(f) for 33 functions x 22 transformations and vmap of ~870 registry testcases, real to_onnx + onnxruntime versus eager JAX.",
+        design_ref="DESIGN.md section 4 C10",
+        note="Trusted: Coq kernel (no axioms). Ties: the batcher model is compared with the real function on 100/600 generated operand cases inside Coq and vmap_spec with numpy; the real `_freshen_closed_jaxpr` is checked to be an injective fresh structure-preserving renaming and the four body lowerings are AST-checked; the lists come from the current source (GenAutodiff, fail closed) and the real jax.numpy functions are checked linear on integer data. The per-primitive batching/jvp/transpose rules of the ~450 plugins are NOT modelled: they are reached only by the exploration sweep (known findings listed per root cause in known_findings.d/C10.json).",
+        technique="Rocq index-arithmetic proof of the shared batch rule against the definition of vmap + alpha-equivariance proof over the dispatcher model + translated allow-lists; differential ties in Coq; differential testing of transformed exports on the real exporter"),
+    "C01": dict(
+        category="proof",
+        text="Proof (partial: ~60 exact kernels + the converter's glue; the other plugins' numerics are explored only). (a) LoweringSem.v: for EVERY jaxpr, if each equation's plugin satisfies the per-equation contract (appends nodes whose evaluation binds the outvars to the primitive's result, preserves earlier bindings), the lowered graph evaluates to the jaxpr's value on every input (induction over the equation list, drop-vars and literals included); contract shown satisfiable. (b) Kernels.v/OnnxInt.v: for 59 kernel entries with exact semantics - integer ring ops, neg/abs/sign, div/rem/floor_divide/mod/fmod, max/min/clamp/clip/relu, select_n/where, boolean and bitwise logic, the three shifts incl. saturation, comparisons, floor/ceil/round under both rounding methods, integer_pow, int/bool conversions, one_hot, dynamic_slice start clamping - theorems generic in the bit width state that the operator graph the plugin emits equals the JAX function for every in-range input; where false of the code a witness (`_refuted`), the exact domain (`_iff`/`_partial`) and a proved repair are given.",
+        design_ref="DESIGN.md section 4 C01",
+        note="Trusted: Coq kernel (no axioms); OnnxInt.v as the meaning of the ONNX integer/boolean operators (checked against onnxruntime on one-op models every run, D1) and jax_k as the meaning of the lax primitives (checked against eager JAX bit-exactly, D2). Tie S: the node list of the real single-primitive export is translated fail-closed to a Gallina term that Coq checks convertible to the proved `lowered_k` (320 kernel x dtype variants); D3: OnnxInt evaluation of the real export == onnxruntime. The structural half of the glue contract is probed on the real plugins for every equation lowered in the sweep. NOT proved: transcendental/conv/attention/linalg numerics, elementwise lifting/broadcasting of the kernels - explored by exporting registry testcases and running them in onnxruntime on adversarial inputs (signed zeros, half-integers, large/small) against eager JAX.",
+        technique="Rocq proof of converter glue relative to a per-plugin contract + bit-width-generic kernel proofs over an ONNX integer-operator semantics; structural tie by convertibility on real exports; differential ties with onnxruntime and eager JAX; adversarial-input sweep of the registry"),
+    "C03": dict(
+        category="proof",
+        text="Proved validator run on real exports (translation validation per export) + proof of the naming discipline: every exported model (registry testcases exported with their declared settings, hand-written nested control-flow / nested @onnx_function programs; x opset 21/23/26/27, double precision, NCHW layout flags, return_mode ir) is converted to the Onnx.v AST and wf_model is evaluated inside Coq. Coq proves wf_model m = true -> WF m (SSA per scope, def-before-use through enclosing scopes, no redefinition of enclosing-scope names, graph outputs defined, function bodies closed, call arity/definition/imports, acyclic calls) and WF m -> evaluation over uninterpreted operators, incl. all nested bodies and function bodies, never fails on a name lookup. Names.v proves over the TRANSLATED fresh_name / make_subgraph_context code that IRBuilder names are injective, IRContext names are injective exactly up to the refuted 'b'/'b_' clash, the two counter families collide (refuted), and (path, base, counter) -> name is injective at every nesting depth for '/'-free clash-free bases.",
+        design_ref="DESIGN.md section 4 C03",
+        note="Trusted: Coq kernel (no axioms), tools/onnx2coq.py + Onnx.v flattening (sanity-checked per model by table_ok), the GenNames extractor (validated each run against the real IRContext/IRBuilder on 100/1000 random call trees). onnx.checker(full), strict shape inference and onnxruntime are cross-checks: 51 hand-made probes show wf_model accepts exactly when checker and ORT do (3 documented conservative rejections). The programs quantifier is SAMPLED (quick ~320 / thorough ~2270 models; one-off sweep of all 3137 registry exports): the theorem is per validated model, not for every program. Side conditions of the naming theorems are evaluated on the 1718 literal bases of /repo: the cross-family condition fails for 'Constant' and 'v' (reported in coverage, not a violation; exports are additionally protected by onnx_ir's NameFixPass). ORT limits not held against exports: opset 27 unsupported, no CPU double kernels for Conv/Asin/AveragePool/QuickGelu. Known findings: CumProd/BitCast at opset 23 (C11), reduce_sum_dtype_f64 and random_bits_uint32_f64 ill-typed under double precision, TensorScatter(mode='none').",
+        technique="Rocq: boolean validator with soundness + lookup-safety meta-theorem run by vm_compute on real exports; naming proofs over auto-extracted string builders; differential ties; external tool cross-checks"),
 }
 
 NOT_YET = {}
